@@ -107,7 +107,7 @@ func (c *Ctx) ownership() *ownership {
 				continue
 			}
 			name := core.TypeStr(t.Type())
-			if !o.shared[name] && !o.perCall[name] {
+			if !o.shared[name] && !o.perCall[name] && !c.typeEscapes(name) {
 				o.perCall[name] = true
 				o.derived = append(o.derived, name)
 			}
@@ -119,6 +119,66 @@ func (c *Ctx) ownership() *ownership {
 	}
 	c.memo["ownership"] = o
 	return o
+}
+
+// typeEscapes: an object of the named type is captured by a function value that outlives its creator (a closure or
+// bound method handed to code outside the module, returned or stored), or is stored into a field of another object —
+// its instances are then reachable from later calls and cannot be treated as per-call memory.
+func (c *Ctx) typeEscapes(name string) bool {
+	p := c.P
+	isT := func(v ssa.Value) bool { return core.NamedOf(v.Type()) == name }
+	esc := false
+	for _, f := range p.Funcs {
+		core.Instrs(f, func(in ssa.Instruction) {
+			switch x := in.(type) {
+			case *ssa.MakeClosure:
+				captures := false
+				for _, b := range x.Bindings {
+					if isT(b) {
+						captures = true
+					}
+					// captured by reference: the binding is the address of a local holding the object
+					if al, ok := b.(*ssa.Alloc); ok {
+						if pt, ok := al.Type().(*types.Pointer); ok && core.NamedOf(pt.Elem()) == name {
+							captures = true
+						}
+					}
+				}
+				if !captures {
+					return
+				}
+				fn, _ := x.Fn.(*ssa.Function)
+				if fn != nil && fn.Synthetic == "" && fn.Parent() != nil && !c.escapingClosure(fn) {
+					return // a local helper closure
+				}
+				// bound method value or escaping literal: does the function value leave this activation?
+				for _, u := range core.Users(x) {
+					if !c.localUse(u, x) {
+						esc = true
+					}
+				}
+			case *ssa.Store:
+				if isT(x.Val) {
+					if fr, ok := core.AsFieldAddr(x.Addr); ok && fr.Owner != name {
+						if !p.FreshIn(x.Addr) || c.ownershipSharedName(fr.Owner) {
+							esc = true
+						}
+					}
+				}
+			}
+		})
+	}
+	return esc
+}
+
+// ownershipSharedName: name is one of the shared roots' closure (computed without the derived per-call set).
+func (c *Ctx) ownershipSharedName(name string) bool {
+	for _, r := range sharedRoots {
+		if r == name {
+			return true
+		}
+	}
+	return false
 }
 
 type write struct {
@@ -426,7 +486,7 @@ func runShared(c *Ctx) {
 					// a slice parameter: every in-target caller must hand in fresh/per-call memory
 					okk, why = c.callersPassFresh(f, w.target)
 				}
-				if owner == "Result" && field == "out" && (core.Outer(f).Name() == "Redefine" || f == p.GeneratedBody()) {
+				if owner == "Result" && field == "out" && (core.Outer(f).Name() == "Redefine" || f == p.GeneratedBody() || (p.GeneratedBody() != nil && p.PrivateHelper(f) && p.InRegion(f, p.GeneratedBody()))) {
 					// listed exception (one symbol, reason): the outputs come straight from reflect.Value.Call, which
 					// allocates exactly len(out) elements; append therefore always reallocates (trusted: reflect)
 					okk, why = true, "listed exception: Result.out is the exact-length slice made by reflect.Value.Call; append reallocates"
